@@ -201,6 +201,12 @@ def configs(tier, seed):
                 continue
             out.append(("A", dict(src="generic", max_states=2500 if tier == "quick" else 30000,
                                   cfg=dict(kind=kind, seed=seed, R=3, W=W, T=4 if kind != "rea" else 5, F=0, mode="min"))))
+    # long single-worker histories (no branching): DEHB beyond its first bracket (mutation / crossover / selection),
+    # PBT and regularised evolution with a full population
+    for kind, T in (("dehb", 14), ("pbt", 10), ("rea", 12), ("shb", 12)):
+        for W in (1, 2):
+            out.append(("A", dict(src="generic", max_states=1500 if tier == "quick" else 20000,
+                                  cfg=dict(kind=kind, seed=seed, R=4 if kind in ("dehb", "shb") else 3, W=W, T=T, F=0, mode="min"))))
     for ki, kind in enumerate(["fifo-random", "hb-stopping", "hb-promotion", "median", "shb", "pbt"]):
         for pi, prof in enumerate(tunerx.PROFILES):
             if (pi + ki + seed) % (8 if tier == "quick" else 2) != 0:
